@@ -133,9 +133,8 @@ def run(R, env):
         good = bool(alts)
         for base, d in alts or []:
             v = d.get(("total_liquid_stake_token",))
-            cs = [s for s in subterms(v)] if v is not None else []
-            cs = [s for s in cs if s[0] == "call" and s[1] == "cosmwasm_std::Uint128::checked_sub"]
-            if not (len(cs) == 1 and loaded_field(prog, cs[0][2][0], "state", ["total_liquid_stake_token"], CRATE) and pending_batch_total(cs[0][2][1])):
+            u_ = minus_operand(v, lambda b_: loaded_field(prog, b_, "state", ["total_liquid_stake_token"], CRATE)) if v is not None else None
+            if not (u_ is not None and pending_batch_total(u_)):
                 good = False
         R.ob("C03.R3", "SubmitBatch:lst-total-delta", good, "total_liquid_stake_token is not reduced by exactly the pending batch total", loc=op["loc"], fn=sk)
     # ---------------- R4
@@ -169,13 +168,13 @@ def run(R, env):
     uk = hu.body.key
     n = 0
     for op in storage_ops_deep(prog, hu, env.depth):
-        if op["kind"] == "w" and ns_of(prog, op["args"][0]) == "batches" and op["op"] == "update":
+        if op["kind"] == "w" and ns_of(prog, op["args"][0]) == "batches" and op.get("wop") == "save":
             n += 1
             alts = shared.write_value_alternatives(prog, op, "batches")
             good = bool(alts)
             for base, d in alts or []:
                 v = d.get(("batch_total_liquid_stake",))
-                if v is None:
+                if v is None or not shared.is_stored_base(prog, base, "batches", CRATE):
                     good = False
                     continue
                 opk, operand = delta_op(v)
@@ -184,7 +183,7 @@ def run(R, env):
             R.ob("C03.R5", "LiquidUnstake:batch-total-delta", good, "pending batch total is not `+= must_pay(info, liquid_stake_token_denom)` on every path", loc=op["loc"], fn=uk)
             key = op["args"][2]
             R.ob("C03.R5", "LiquidUnstake:batch-is-pending", is_load(prog, key, "pending_batch_id", CRATE), "batch updated under key %s, expected the pending batch id" % fmt(key)[:120], loc=op["loc"], fn=uk)
-    R.floor("C03.R5", "BATCHES.update in LiquidUnstake", n, 1)
+    R.floor("C03.R5", "BATCHES read-modify-write in LiquidUnstake", n, 1)
 
 
 def is_pending_batch(prog, t):
